@@ -54,6 +54,18 @@ pub fn work_list(cfg: &RunCfg) -> Option<WorkList> {
             }
         }
     }
+    // longer templates: a concrete token sequence, then free bytes (three regexes)
+    for r in TPL_REGEXES.iter().take(3) {
+        for kind in ["default", "python"].iter() {
+            for shard in 0..SHARDS {
+                let mut it = Item::new(r, "template-pinned");
+                it.n_extra = 0;
+                it.variant = Some(kind.to_string());
+                it.note = shard.to_string();
+                fixed.push(it);
+            }
+        }
+    }
     Some(WorkList { fixed, random_enabled: false, feats: 0, max_depth: 0 })
 }
 
@@ -356,11 +368,36 @@ mod imp {
         let show_sym = |o: &symtpl::SymString| format!("{:?}", o.0.iter().map(|b| crate::symtext::ByteLike::term(*b)).collect::<Vec<_>>());
         let show_str = |o: &String| hex(o.as_bytes());
         let shard: usize = item.note.parse().unwrap_or(0);
-        for (li, widths) in engine::layouts(cfg.n).into_iter().enumerate() {
+        // work units: (layout, pinned bytes).  The plain items take every layout of <= N free
+        // bytes; the "template-pinned" items take a concrete token sequence followed by <= N - 1
+        // free bytes (state carried from one token of the template to the next ones).
+        let mut units: Vec<(Vec<usize>, Vec<String>)> = Vec::new();
+        if item.gen == "template-pinned" {
+            let prefixes: &[&str] = if py {
+                &["\\.", "\\g<", "\\\\", "\\g<1>", "\\1", "\\.\\g<1>", "\\g<\\g<1>", "\\\\\\1", "a\\g<n>", "\\g<n>\\."]
+            } else {
+                &["$.", "$ ", "${", "$$", "${1}", "$1", "$.${1}", "${${1}", "$ ${n}", "$$$1", "$1$$", "${1}$.", "\u{e9}$1", "${n}$."]
+            };
+            for pre in prefixes.iter() {
+                let mut pw: Vec<usize> = pre.chars().map(|c| c.len_utf8()).collect();
+                let pins: Vec<String> = pre.bytes().enumerate().map(|(i, b)| format!("(= b{} #x{:02x})", i, b)).collect();
+                for suffix in engine::layouts(cfg.n.saturating_sub(1)) {
+                    let mut w = pw.clone();
+                    w.extend(suffix.iter().cloned());
+                    units.push((w, pins.clone()));
+                }
+                pw.clear();
+            }
+        } else {
+            for widths in engine::layouts(cfg.n) {
+                units.push((widths, Vec::new()));
+            }
+        }
+        for (li, (widths, pins)) in units.into_iter().enumerate() {
             if li % SHARDS != shard {
                 continue;
             }
-            let ex = engine::explore(&widths, &classes, &[], cfg.max_paths, true, |t: &SymStr| ctx.run(t, &show_sym));
+            let ex = engine::explore(&widths, &classes, &pins, cfg.max_paths, true, |t: &SymStr| ctx.run(t, &show_sym));
             rep.explorations += 1;
             if let Some(e) = engine::take_error() {
                 rep.status = format!("error:{}", e);
